@@ -1959,6 +1959,8 @@ class Interp:
             return isinstance(v, c)
         if isinstance(c, Opaque) and c.tag in ("np.floating", "np.float64", "np.number") and isinstance(v, FloatSym):
             return True
+        if isinstance(c, Opaque) and c.tag == "np.ndarray" and (isinstance(v, SArr) or getattr(v, "pytag", None) == "np.ndarray"):
+            return True
         if isinstance(v, Opaque):
             nm = getattr(c, "name", None) or getattr(c, "tag", None) or str(c)
             return Unk(f"isinstance({v.tag}, {nm})")
